@@ -10,7 +10,7 @@ using namespace vf;
 
 struct Plan { int synSeeds; int mutPerSample; int apiModels; int editRounds; };
 Plan plan() { return g_cfg.tier ? Plan{8, 4, 400, 3} : Plan{1, 1, 96, 2}; }
-struct Layout { size_t nReal, nMut, nSyn, nApi; size_t total() const { return nReal + nMut + nSyn + nApi; } };
+struct Layout { size_t nReal, nMut, nSyn, nApi, nUnk; size_t total() const { return nReal + nMut + nSyn + nApi + nUnk; } };
 Layout layout() {
 	Plan p = plan();
 	Layout l;
@@ -18,6 +18,7 @@ Layout layout() {
 	l.nMut = l.nReal * (size_t)p.mutPerSample;
 	l.nSyn = typeDB().names.size() * nAllVers() * (size_t)p.synSeeds;
 	l.nApi = (size_t)p.apiModels;
+	l.nUnk = realSamples().size() * (g_cfg.tier ? 6 : 1);
 	return l;
 }
 
@@ -110,6 +111,32 @@ void run(size_t idx) {
 		return;
 	}
 	idx -= l.nSyn;
+	if (idx >= l.nApi) {
+		// files with an unknown block type keep the loaded string table (only appended to): header strings edited in place through
+		// NiHeader::SetStringById, the longest one shortened / another one lengthened, then written
+		size_t k = idx - l.nApi;
+		Rng rng(mix(g_cfg.seed, 0xC07D000 + k));
+		std::string d;
+		std::string b = sampleWithUnknownType(rng, &d);
+		NifFile n;
+		if (b.empty() || loadNif(n, b) != 0) return;
+		auto& hdr = n.GetHeader();
+		uint32_t ns = hdr.GetStringCount();
+		if (ns == 0) return;
+		std::string src = "unknown-type file: " + d;
+		uint32_t longest = 0;
+		for (uint32_t i = 0; i < ns; i++) if (hdr.GetStringById(i).size() > hdr.GetStringById(longest).size()) longest = i;
+		std::string edits;
+		switch (k % 3) {
+			case 0: hdr.SetStringById(longest, hdr.GetStringById(longest).substr(0, 1)); edits = fmt("SetStringById(longest=%u, 1 char)", longest); break;
+			case 1: { uint32_t i = rng.below(ns); hdr.SetStringById(i, hdr.GetStringById(i) + std::string(40 + rng.below(60), 'x')); edits = fmt("SetStringById(%u, +many chars)", i); break; }
+			default: hdr.SetStringById(longest, ""); edits = fmt("SetStringById(longest=%u, empty)", longest); break;
+		}
+		R_caseDesc(src + " " + edits);
+		checkSaves(n, src + " " + edits, "string-edited");
+		checkSaves(n, src + " " + edits, "string-edited-second-save");
+		return;
+	}
 	{
 		uint64_t seed = mix(g_cfg.seed, 0xC07B000 + idx);
 		ApiOpts ao;
